@@ -1,0 +1,15 @@
+//go:build !verif
+
+package target
+
+import (
+	"context"
+
+	"github.com/sdcio/data-server/pkg/config"
+	schemaClient "github.com/sdcio/data-server/pkg/datastore/clients/schema"
+)
+
+// verifTarget is a no-op without the verif build tag.
+func verifTarget(_ context.Context, _ string, _ *config.SBI, _ schemaClient.SchemaClientBound) (Target, bool, error) {
+	return nil, false, nil
+}
